@@ -1,0 +1,27 @@
+//go:build verif
+
+package bmc
+
+import (
+	"time"
+
+	"github.com/cenkalti/backoff/v4"
+)
+
+// This file is only compiled with -tags verif. It changes no existing
+// behaviour.
+
+// DialV2ForVerif is DialV2 - the library's real UDP transport - with the
+// back-off between retries replaced by the caller's, so that the verification
+// harness can run its scripted histories over real sockets without waiting out
+// the 500 ms exponential back-off.
+func DialV2ForVerif(addr string, timeout time.Duration, b backoff.BackOff) (*V2SessionlessTransport, error) {
+	s, err := DialV2(addr, WithTimeout(timeout))
+	if err != nil {
+		return nil, err
+	}
+	if b != nil {
+		s.V2Sessionless.backoff = b
+	}
+	return s, nil
+}
